@@ -166,7 +166,7 @@ func init() {
 
 func runC09(c *Ctx) {
 	rng := c.Rng
-	n := c.N(300, 3000)
+	n := c.N(300, 15000)
 	maxOps := c.Bound(60, 400)
 	for i := 0; i < n; i++ {
 		u := newSigUniverse(rng)
